@@ -36,5 +36,25 @@ s=open(p).read()
 for name,txt in (('fixed',fixed),('known',known),('mutants',mut)):
     s=re.sub(r'(<!-- BEGIN:%s -->\n).*?(\n<!-- END:%s -->)'%(name,name), lambda mm: mm.group(1)+txt+mm.group(2), s, flags=re.S)
 s=re.sub(r'<!-- COUNT:mutants -->.*?<!-- /COUNT -->','<!-- COUNT:mutants -->%d changes, %d missed at the first attempt<!-- /COUNT -->'%(n,missed),s)
+# §9.1: third column (quick: evaluations / time) from the evidence files, when they are quick-tier
+def human(n):
+    n=int(n)
+    if n>=10_000_000: return '%.0f M'%(n/1e6)
+    if n>=1_000_000: return '%.2f M'%(n/1e6)
+    if n>=10_000: return '%.0f k'%(n/1e3)
+    if n>=1_000: return '%.1f k'%(n/1e3)
+    return str(n)
+def row(m):
+    cid=m.group(1)
+    try: e=json.load(open('/verif/evidence/%s.json'%cid))
+    except Exception: return m.group(0)
+    if e.get('tier')!='quick': return m.group(0)
+    c=e['coverage']; w=e.get('wall_s',0)
+    if 'states' in c and 'transitions' in c and e.get('level')=='model_checking':
+        col='%s states, %s transitions / %d s'%(human(c['states']),human(c['transitions']),round(w))
+    else:
+        col='%s / %d s'%(human(c.get('evaluations',0)),round(w))
+    return '| %s |%s| %s |%s|'%(cid,m.group(2),col,m.group(4))
+s=re.sub(r'^\| (C\d\d) \|([^|\n]*)\|([^|\n]*)\|([^|\n]*)\|$', row, s, flags=re.M)
 open(p,'w').write(s)
 print('fixed',len(kf['fixed']),'known',len(kf['findings']),'mutants',n,'missed first',missed)
